@@ -54,6 +54,17 @@ CLAIMED = {
             "and rescheduled messages; a per-iteration monitor records when the message is dead-lettered: never "
             "executed after expiry, never dead-lettered at or before it, expired messages readable from the dead category.",
             FAKES, "DESIGN.md 4 C12"),
+    "C14": ("model_checking", "start/stop sweeps over every iteration + deviation-bounded search over server request order and stalls",
+            "Two consumers and two workers on one queue (1-3 messages): the second participant starts, and the first "
+            "worker is force-stopped, at every loop iteration; on the Redis / RabbitMQ models every order of concurrently "
+            "pending requests and every single stalled request is explored up to 2 (quick) / 3 (thorough) deviations: no id "
+            "handed to two holders without a return in between, successful jobs run exactly once, no overlapping holders.",
+            FAKES + " In-memory two-consumer histories are additionally covered by C01's alphabet.", "DESIGN.md 4 C14"),
+    "C15": ("model_checking", "exhaustive words over enqueue/consume/reject on the real brokers against a FIFO model",
+            "All words up to length 6-7 from the empty queue and all words up to length 4-5 appended to backlogs of 1..13 "
+            "messages in three topic patterns (straddling Redis' 10-name window), with one consumer and with a second "
+            "consumer for the foreign topic; every consume() must return a message the FIFO model allows.",
+            FAKES + " Delayed-then-due messages are outside the order oracle.", "DESIGN.md 4 C15"),
 }
 
 PENDING_REASON = "check not built yet in this revision of /verif (see DESIGN.md section 4 for the plan)"
